@@ -467,7 +467,7 @@ fn oracle_handles() -> bool {
     let mut r = Report::new("handles");
     let rt = rt();
     for kind in ["memory", "altroot", "overlay"] {
-        for scenario in 0..5 {
+        for scenario in 0..6 {
             r.case();
             let pair = make_pair(kind);
             let res = catch_unwind(AssertUnwindSafe(|| rt.block_on(async {
@@ -488,6 +488,14 @@ fn oracle_handles() -> bool {
                         let mut ha = fa.create_file().await.unwrap(); ha.write_all(b"AAA").await.unwrap(); ha.flush().await.unwrap(); fa.create_file().await.unwrap().write_all(b"zz").await.unwrap(); ha.flush().await.unwrap();
                         let (x, y) = (fs_.read_to_string().ok(), fa.read_to_string().await.ok()); tr(&format!("mid {:?}", y));
                         if x != y { return Some(format!("after the repeated flush: sync {:?}, async {:?}", x, y)); } }
+                    5 => { // the file is removed between the write and an explicit flush; observed while the handles are still open
+                        let mut hs = fs_.create_file().unwrap(); hs.write_all(b"pay").unwrap(); fs_.remove_file().unwrap(); hs.flush().unwrap();
+                        let mut ha = fa.create_file().await.unwrap(); ha.write_all(b"pay").await.unwrap(); fa.remove_file().await.unwrap(); ha.flush().await.unwrap();
+                        for p in ["", "/f"] {
+                            let (x, y) = (sync_obs(&pair.s, p), async_obs(&pair.a, p).await); tr(&format!("open {} {:?}", p, y));
+                            if x != y { return Some(format!("after remove + flush, handles still open, at {:?}: sync {:?}, async {:?}", p, x, y)); }
+                        }
+                        drop(hs); drop(ha); }
                     _ => { // two append handles
                         let hs1 = fs_.append_file().unwrap(); let mut hs2 = fs_.append_file().unwrap(); hs2.write_all(b"2").unwrap(); drop(hs2); drop(hs1);
                         let ha1 = fa.append_file().await.unwrap(); let mut ha2 = fa.append_file().await.unwrap(); ha2.write_all(b"2").await.unwrap(); drop(ha2); drop(ha1); }
@@ -501,6 +509,44 @@ fn oracle_handles() -> bool {
             let what = format!("backend={} scenario={}", kind, scenario);
             match res { Err(_) => r.fail(what, "panicked".into()), Ok(Some(d)) => r.fail(what, d), Ok(None) => {} }
         }
+    }
+    r.done()
+}
+
+/// the optional trait methods called directly on the filesystem objects (not through the path type, whose own checks mask part of them):
+/// copy_file / move_file / move_dir of memory and altroot for every (src, dest) of a small universe including the root path ""
+fn oracle_direct() -> bool {
+    use vfs::FileSystem;
+    let mut r = Report::new("direct");
+    let rt = rt();
+    let names = ["", "/a", "/b", "/d", "/d/x", "/nope"];
+    for kind in ["memory", "altroot"] {
+        for m in 0..3 { for s in names { for d in names {
+            r.case();
+            let res = catch_unwind(AssertUnwindSafe(|| rt.block_on(async {
+                let sm: VfsPath = MemoryFS::new().into(); let am: AsyncVfsPath = AsyncMemoryFS::new().into();
+                let (sb, ab) = if kind == "memory" { (sm.clone(), am.clone()) } else { (sm.join("r").unwrap(), am.join("r").unwrap()) };
+                if kind != "memory" { sb.create_dir().unwrap(); ab.create_dir().await.unwrap(); }
+                sb.join("a").unwrap().create_file().unwrap().write_all(b"A").unwrap(); sb.join("d").unwrap().create_dir().unwrap(); sb.join("d/x").unwrap().create_file().unwrap().write_all(b"X").unwrap();
+                ab.join("a").unwrap().create_file().await.unwrap().write_all(b"A").await.unwrap(); ab.join("d").unwrap().create_dir().await.unwrap(); ab.join("d/x").unwrap().create_file().await.unwrap().write_all(b"X").await.unwrap();
+                let (x, y) = if kind == "memory" {
+                    let (sf, af) = (MemoryFS::new(), AsyncMemoryFS::new());
+                    match m { 0 => (outcome(&sf.copy_file(s, d)), outcome(&af.copy_file(s, d).await)), 1 => (outcome(&sf.move_file(s, d)), outcome(&af.move_file(s, d).await)), _ => (outcome(&sf.move_dir(s, d)), outcome(&af.move_dir(s, d).await)) }
+                } else {
+                    let (sf, af) = (AltrootFS::new(sb.clone()), AsyncAltrootFS::new(ab.clone()));
+                    match m { 0 => (outcome(&sf.copy_file(s, d)), outcome(&af.copy_file(s, d).await)), 1 => (outcome(&sf.move_file(s, d)), outcome(&af.move_file(s, d).await)), _ => (outcome(&sf.move_dir(s, d)), outcome(&af.move_dir(s, d).await)) }
+                };
+                tr(&format!("{:?}", y));
+                if x != y { return Some(format!("result class: sync {:?}, async {:?}", x, y)); }
+                for p in ["", "/a", "/b", "/d", "/d/x"] {
+                    let (x, y) = (sync_obs(&sb, p), async_obs(&ab, p).await); tr(&format!("{} {:?}", p, y));
+                    if x != y { return Some(format!("afterwards at {:?}: sync {:?}, async {:?}", p, x, y)); }
+                }
+                None
+            })));
+            let what = format!("backend={} method={} src={:?} dest={:?} called on the filesystem object", kind, ["copy_file", "move_file", "move_dir"][m], s, d);
+            match res { Err(_) => r.fail(what, "panicked".into()), Ok(Some(d)) => r.fail(what, d), Ok(None) => {} }
+        } } }
     }
     r.done()
 }
@@ -520,6 +566,7 @@ fn main() {
             "schedule" => oracle_schedule(),
             "transfer" => oracle_transfer(),
             "handles" => oracle_handles(),
+            "direct" => oracle_direct(),
             "hostile" => oracle_hostile(),
             other => { println!("UNKNOWN {}", other); false }
         };
